@@ -5,6 +5,7 @@ package promsim
 import (
 	"context"
 	"fmt"
+	"go.opentelemetry.io/otel/sdk/metric/metricdata"
 	"math"
 	"sort"
 	"strings"
@@ -50,7 +51,7 @@ var names = []struct{ name, unit string }{
 	{"duration_ms", "ms"}, {"size.bytes", "By"}, {"rate", "1/s"}, {"_leading", ""},
 }
 
-var instKinds = []string{"counter_i", "counter_f", "updown_i", "gauge_i", "hist_i"}
+var instKinds = []string{"counter_i", "counter_f", "updown_i", "gauge_i", "hist_i", "exphist_f"}
 
 type inst struct {
 	idx      int
@@ -68,6 +69,7 @@ type inst struct {
 	ui       metric.Int64UpDownCounter
 	gi       metric.Int64Gauge
 	hi       metric.Int64Histogram
+	he       metric.Float64Histogram // aggregated as a base-2 exponential histogram through a view
 	lastGaug int64
 }
 
@@ -76,6 +78,14 @@ type measOp struct {
 	sub      string // "" or "b": which of the instrument's attribute sets
 	bit      int
 	inv, ret uint64
+	expo     int // exponential histogram: +1 positive, -1 negative, 0 zero value
+}
+
+// nativeHist is an exposed native (exponential) histogram, spans and deltas decoded to absolute bucket indices.
+type nativeHist struct {
+	schema   int32
+	zero     uint64
+	pos, neg map[int]int64
 }
 
 type scrape struct {
@@ -91,6 +101,7 @@ type scrape struct {
 	target       int
 	scopes       int
 	targetLabels []string
+	native       map[string]*nativeHist
 }
 
 type safeCollector struct {
@@ -142,6 +153,8 @@ type world struct {
 	panics           []string
 	handled          []string
 	wireInv, wireRet uint64
+	refData          metricdata.ResourceMetrics // what a plain reader on the same provider collects at quiescence
+	refErr           error
 }
 
 type planOp struct {
@@ -270,9 +283,17 @@ func (engine) Body(r *simdrv.Run) {
 	// the runs, by a task of its own while scrapes are already arriving (the /metrics endpoint is up
 	// before the SDK is wired): such scrapes must be empty and must not leave anything behind.
 	var mp *sdkmetric.MeterProvider
+	ref := sdkmetric.NewManualReader() // reference for the differential check of exponential histograms at quiescence
 	wire := func() {
 		w.wireInv = sim.Stamp()
-		p := sdkmetric.NewMeterProvider(sdkmetric.WithReader(exp),
+		var views []sdkmetric.View
+		for _, in := range w.insts {
+			if in.kind == "exphist_f" {
+				views = append(views, sdkmetric.NewView(sdkmetric.Instrument{Name: in.name, Kind: sdkmetric.InstrumentKindHistogram},
+					sdkmetric.Stream{Aggregation: sdkmetric.AggregationBase2ExponentialHistogram{MaxSize: 20, MaxScale: 3}}))
+			}
+		}
+		p := sdkmetric.NewMeterProvider(sdkmetric.WithReader(exp), sdkmetric.WithReader(ref), sdkmetric.WithView(views...),
 			sdkmetric.WithResource(resource.NewSchemaless(attribute.String("service.name", "sim"), attribute.String("deployment", "test"), attribute.String("unrelated", "x"))))
 		w.wireRet = sim.Stamp()
 		mp = p
@@ -304,6 +325,8 @@ func (engine) Body(r *simdrv.Run) {
 			in.gi, e = m.Int64Gauge(in.name, metric.WithUnit(in.unit), metric.WithDescription(in.desc))
 		case "hist_i":
 			in.hi, e = m.Int64Histogram(in.name, metric.WithUnit(in.unit), metric.WithDescription(in.desc), metric.WithExplicitBucketBoundaries(1, 4, 16, 256, 65536))
+		case "exphist_f":
+			in.he, e = m.Float64Histogram(in.name, metric.WithUnit(in.unit), metric.WithDescription(in.desc))
 		}
 		if e != nil {
 			r.Res.Outcome = "harness-panic"
@@ -330,7 +353,7 @@ func (engine) Body(r *simdrv.Run) {
 					create(in)
 					r.Log("%d create %s %s task=%s", in.created, in.kind, in.name, name)
 				}
-				if in.nextBit >= 30 || (in.ci == nil && in.cf == nil && in.ui == nil && in.gi == nil && in.hi == nil) {
+				if in.nextBit >= 30 || (in.ci == nil && in.cf == nil && in.ui == nil && in.gi == nil && in.hi == nil && in.he == nil) {
 					continue
 				}
 				sub := ""
@@ -354,6 +377,10 @@ func (engine) Body(r *simdrv.Run) {
 					in.gi.Record(ctx, v, attrs)
 				case "hist_i":
 					in.hi.Record(ctx, v, attrs)
+				case "exphist_f":
+					// positive, negative and zero values, spread over many powers of two
+					mo.expo = []int{1, 1, -1, 0}[sim.Draw(4)]
+					in.he.Record(ctx, float64(mo.expo)*float64(v)*1.25, attrs)
 				}
 				mo.ret = sim.Stamp()
 				r.Log("%d add i%d%s bit=%d task=%s (invoked %d)", mo.ret, in.idx, sub, mo.bit, name, mo.inv)
@@ -362,7 +389,7 @@ func (engine) Body(r *simdrv.Run) {
 		})
 	}
 	doScrape := func(task string) {
-		sc := &scrape{task: task, inv: sim.Stamp(), vals: map[string]float64{}, counts: map[string]uint64{}, kinds: map[string]string{}, bucks: map[string]map[float64]uint64{}}
+		sc := &scrape{task: task, inv: sim.Stamp(), vals: map[string]float64{}, counts: map[string]uint64{}, kinds: map[string]string{}, bucks: map[string]map[float64]uint64{}, native: map[string]*nativeHist{}}
 		w.scrapes = append(w.scrapes, sc)
 		mfs, err := reg.Gather()
 		simrt.Woke(simdrv.PtOp)
@@ -406,6 +433,31 @@ func (engine) Body(r *simdrv.Run) {
 				case dto.MetricType_HISTOGRAM:
 					h := m.Histogram
 					sc.kinds[id], sc.vals[id], sc.counts[id] = "histogram", h.GetSampleSum(), h.GetSampleCount()
+					if h.Schema != nil {
+						nh := &nativeHist{schema: h.GetSchema(), zero: h.GetZeroCount(), pos: map[int]int64{}, neg: map[int]int64{}}
+						decode := func(spans []*dto.BucketSpan, deltas []int64, into map[int]int64) {
+							idx, k := 0, 0
+							var c int64
+							for si, sp := range spans {
+								if si == 0 {
+									idx = int(sp.GetOffset())
+								} else {
+									idx += int(sp.GetOffset())
+								}
+								for j := 0; j < int(sp.GetLength()) && k < len(deltas); j++ {
+									c += deltas[k]
+									k++
+									if c != 0 {
+										into[idx] = c
+									}
+									idx++
+								}
+							}
+						}
+						decode(h.PositiveSpan, h.PositiveDelta, nh.pos)
+						decode(h.NegativeSpan, h.NegativeDelta, nh.neg)
+						sc.native[id] = nh
+					}
 					sc.bucks[id] = map[float64]uint64{}
 					for _, b := range h.Bucket {
 						sc.bucks[id][b.GetUpperBound()] = b.GetCumulativeCount()
@@ -439,6 +491,9 @@ func (engine) Body(r *simdrv.Run) {
 	sim.Spawn("closer", func() {
 		sim.JoinOthers(simdrv.PtOp)
 		doScrape("closer")
+		if mp != nil {
+			w.refErr = ref.Collect(context.Background(), &w.refData)
+		}
 	})
 	out := sim.Run()
 	r.Finish(out)
@@ -570,9 +625,32 @@ func (engine) Body(r *simdrv.Run) {
 				r.Violate(prop, "phantom-series", "phantom-series", "scrape %d..%d exposes %s %q before any measurement was made", sc.inv, sc.ret, in.kind, in.name)
 				continue
 			}
-			wantKind := map[string]string{"counter_i": "counter", "counter_f": "counter", "updown_i": "gauge", "gauge_i": "gauge", "hist_i": "histogram"}[in.kind]
+			wantKind := map[string]string{"counter_i": "counter", "counter_f": "counter", "updown_i": "gauge", "gauge_i": "gauge", "hist_i": "histogram", "exphist_f": "histogram"}[in.kind]
 			if sc.kinds[id] != wantKind {
 				r.Violate(prop, "wrong-type", "wrong-type", "%s %q is exposed as a %s", in.kind, in.name, sc.kinds[id])
+				continue
+			}
+			if in.kind == "exphist_f" {
+				// count within the may/must window, buckets consistent with the count; exact structure is
+				// compared with a plain reader on the same provider at quiescence (below)
+				nh := sc.native[id]
+				if nh == nil {
+					r.Violate(prop, "wrong-type", "wrong-type/not-native", "exponential histogram %q is not exposed as a native histogram", in.name)
+					continue
+				}
+				if c := sc.counts[id]; c < uint64(popcount(must)) || c > uint64(popcount(may)) {
+					r.Violate(prop, "unfaithful-value", "unfaithful-value/exphist-count", "exponential histogram %q: scrape %d..%d count %d, %d measurements completed before it and %d were invoked before it returned", in.name, sc.inv, sc.ret, c, popcount(must), popcount(may))
+				}
+				var tot int64
+				for _, c := range nh.pos {
+					tot += c
+				}
+				for _, c := range nh.neg {
+					tot += c
+				}
+				if uint64(tot)+nh.zero != sc.counts[id] {
+					r.Violate(prop, "inconsistent-series", "inconsistent-series/exphist", "exponential histogram %q: buckets hold %d + zero count %d, count is %d", in.name, tot, nh.zero, sc.counts[id])
+				}
 				continue
 			}
 			if v != math.Trunc(v) || v < 0 {
@@ -618,6 +696,43 @@ func (engine) Body(r *simdrv.Run) {
 			}
 		}
 		lastBy[sc.task] = sc
+	}
+	// exponential histograms at quiescence: the exposed native histogram equals what a plain reader on the
+	// same provider collects (Prometheus indexes buckets by their upper, OpenTelemetry by their lower
+	// boundary: index + 1)
+	if last := w.scrapes[len(w.scrapes)-1]; last.task == "closer" && last.ret != 0 && last.err == nil && w.refErr == nil {
+		for _, sm := range w.refData.ScopeMetrics {
+			for _, m := range sm.Metrics {
+				eh, ok := m.Data.(metricdata.ExponentialHistogram[float64])
+				if !ok {
+					continue
+				}
+				for _, dp := range eh.DataPoints {
+					idv, _ := dp.Attributes.Value("inst")
+					id := idv.AsString()
+					nh := last.native[id]
+					if nh == nil {
+						r.Violate(prop, "missing-series", "missing-series/exphist_f", "the final scrape has no native histogram for %s %q although the SDK holds %d measurements", id, m.Name, dp.Count)
+						continue
+					}
+					want := func(b metricdata.ExponentialBucket) map[int]int64 {
+						out := map[int]int64{}
+						for j, c := range b.Counts {
+							if c != 0 {
+								out[int(b.Offset)+j+1] = int64(c)
+							}
+						}
+						return out
+					}
+					wp, wn := want(dp.PositiveBucket), want(dp.NegativeBucket)
+					if nh.schema != dp.Scale || nh.zero != dp.ZeroCount || last.counts[id] != dp.Count || last.vals[id] != dp.Sum || fmt.Sprint(nh.pos) != fmt.Sprint(wp) || fmt.Sprint(nh.neg) != fmt.Sprint(wn) {
+						r.Violate(prop, "unfaithful-value", "unfaithful-value/exphist", "exponential histogram %s %q at quiescence: exposed schema %d count %d sum %v zero %d positive %v negative %v; the SDK's aggregation has scale %d count %d sum %v zero %d positive %v negative %v (bucket index + 1)",
+							id, m.Name, nh.schema, last.counts[id], last.vals[id], nh.zero, nh.pos, nh.neg, dp.Scale, dp.Count, dp.Sum, dp.ZeroCount, wp, wn)
+					}
+					r.Probe("exphist-compared-at-quiescence")
+				}
+			}
+		}
 	}
 	if lateWire {
 		// a scrape that arrives before the exporter has a provider reports exactly this, by design
